@@ -315,6 +315,11 @@ theorem send_and_put_step_order :
     Gen.Site.sendData.filter (fun x => x ∈ ["write", "drain", "put"]) = ["write", "drain", "put"] ∧
     Gen.Site.corrPut = ["_remove_expired", "monotonic", "set:_store"] := by decide
 
+/-- TIE TO THE SOURCE (regenerated on every run, Gen/Site.lean): `_handle_response` in source order: decode, correlate (`correlator.get`), throttle statistics, remember the SMSC id (`put_delivery`), aggregate the segments (`get_segmented`), report an expired message - the order of Model/Corr.lean `handleResponse` -/
+theorem handle_response_step_order :
+    Gen.Site.handleResponse = ["from_pdu", "get:correlator", "throttled", "not_throttled", "put_delivery", "get_segmented", "send_error"] := by
+  decide
+
 end SmppVerif.Props.C01
 
 #print axioms SmppVerif.Props.C01.plain_response_outcome
@@ -330,3 +335,4 @@ end SmppVerif.Props.C01
 #print axioms SmppVerif.Props.C01.segmented_message_exactly_once
 #print axioms SmppVerif.Props.C01.Example.weave
 #print axioms SmppVerif.Props.C01.send_and_put_step_order
+#print axioms SmppVerif.Props.C01.handle_response_step_order
